@@ -65,9 +65,14 @@ def _inline_helpers(m: Module, e, depth=0):
                 f = funcs[n.func.id]
                 body = [x for x in f.body if not (isinstance(x, ast.Expr) and isinstance(x.value, ast.Constant))]
                 params = [a.arg for a in f.args.args]
-                if len(body) == 1 and isinstance(body[0], ast.Return) and body[0].value is not None and len(params) == len(n.args) \
+                straight = all(isinstance(x, (ast.Assign, ast.Return, ast.AnnAssign)) for x in body)
+                rets = [x for x in body if isinstance(x, ast.Return)]
+                if straight and len(rets) == 1 and body[-1] is rets[0] and rets[0].value is not None and len(params) == len(n.args) \
                         and not f.decorator_list:
-                    return _inline_helpers(m, _subst(body[0].value, dict(zip(params, n.args))), depth + 1)
+                    fenv, fmulti = _single_assign_env(f)
+                    if not fmulti - set(params):
+                        expr = _subst(rets[0].value, fenv)
+                        return _inline_helpers(m, _subst(expr, dict(zip(params, n.args))), depth + 1)
             return n
     import copy
     return T().visit(copy.deepcopy(e))
@@ -277,11 +282,32 @@ def rule_choice_search(ctx: Ctx, rid="C03.BISECT-RIGHT", parts=("right", "clamp"
     m, fn = _choice(ctx)
     env, multi = _single_assign_env(fn)
     site = m.site(fn)
+    con = f"{BIN}:deterministic_choice"
     calls = [n for n in walk_no_nested(fn) if isinstance(n, ast.Call) and dotted(n.func)
              and (m.imports.get(dotted(n.func), ("", ""))[0] == "bisect" or dotted(n.func).startswith("bisect."))]
-    con = f"{BIN}:deterministic_choice"
     if not calls:
-        raise AnalysisError("no bisect call found in deterministic_choice: search idiom not recognised")
+        # alternative idiom: a linear scan over the cumulative weights
+        loops = [n for n in walk_no_nested(fn) if isinstance(n, ast.For) and "cum_weights" in norm(n.iter)]
+        for lp in loops:
+            tests = [x for x in ast.walk(lp) if isinstance(x, ast.If) and isinstance(x.test, ast.Compare) and len(x.test.ops) == 1]
+            for t in tests:
+                names = {nn.id for nn in ast.walk(lp.target) if isinstance(nn, ast.Name)}
+                l, r, op = t.test.left, t.test.comparators[0], t.test.ops[0]
+                edge_right = isinstance(r, ast.Name) and r.id in names
+                edge_left = isinstance(l, ast.Name) and l.id in names
+                if not (edge_right or edge_left):
+                    continue
+                # `point < edge` (or `edge > point`) selects the first edge strictly above the point = right bisection
+                strict = (edge_right and isinstance(op, ast.Lt)) or (edge_left and isinstance(op, ast.Gt))
+                closed = (edge_right and isinstance(op, ast.LtE)) or (edge_left and isinstance(op, ast.GtE))
+                if "right" in parts:
+                    ctx.rep.check(strict, rid, con + "[linear scan]",
+                                  "linear scan takes the first cumulative edge strictly above u*total (right bisection)" if strict else
+                                  f"linear scan tests `{norm(t.test)}`: the upper edge of each bucket is closed, so a unit exactly on a "
+                                  "boundary (u=0 with a leading zero weight, u*total equal to a cumulative weight) falls into the earlier, "
+                                  "possibly zero-width, group", site=m.site(t), text=f"scan {norm(t.test)}")
+                return
+        raise AnalysisError("no bisect call or cumulative scan found in deterministic_choice: search idiom not recognised")
     for c in calls:
         nm = dotted(c.func)
         target = m.imports.get(nm, (None, None))
@@ -478,7 +504,7 @@ CACHE_DECORATORS = {"lru_cache", "functools.lru_cache", "cache", "functools.cach
                     "memoize", "cachetools.cached"}
 
 
-def rule_no_shared_state(ctx: Ctx, rid="C17.NO-SHARED-WRITES", modules=None):
+def rule_no_shared_state(ctx: Ctx, rid="C17.NO-SHARED-WRITES", modules=None, only=None, floor=None):
     """Own modules: no function writes module globals, class attributes, or mutates a
     module-level / class-level mutable object; no caching decorator keeps per-process state."""
     nfun = 0
@@ -504,6 +530,8 @@ def rule_no_shared_state(ctx: Ctx, rid="C17.NO-SHARED-WRITES", modules=None):
             ctx.rep.bad(rid, f"{m.rel}:{cn}.{an}", f"class-level mutable default `{norm(st)[:60]}` is one object shared by every "
                         "instance (and thread)", site=m.site(st), text=norm(st)[:100])
         for fn in [x for x in ast.walk(m.tree) if isinstance(x, (ast.FunctionDef, ast.AsyncFunctionDef))]:
+            if only is not None and not only(m, fn):
+                continue
             nfun += 1
             q = f"{m.rel}:{fn.name}"
             ctx.rep.unit(q)
@@ -548,7 +576,7 @@ def rule_no_shared_state(ctx: Ctx, rid="C17.NO-SHARED-WRITES", modules=None):
                     if b0 in class_names or b0 == "cls" or (isinstance(n.args[0], ast.Call) and dotted(n.args[0].func) == "type"):
                         ctx.rep.bad(rid, q, f"setattr on a class at run time ({norm(n)[:60]})", site=m.site(n), text=norm(n)[:100])
     ctx.rep.ok(rid, "src/pyab_experiment (outside sly)", f"{nfun} functions scanned for shared-state writes")
-    ctx.rep.floor("functions scanned for shared-state writes", nfun, 25 if not modules else 2)
+    ctx.rep.floor("functions scanned for shared-state writes", nfun, floor if floor is not None else (25 if not modules else 2))
 
 
 def rule_value_keyed_caches(ctx: Ctx, rid="C01.NO-VALUE-KEYED-CACHE", modules=None, functions=None):
@@ -1013,6 +1041,45 @@ def rule_skip_guard(ctx: Ctx, rid="C11.SKIP-GUARD"):
                                   site=m.site(st), text=norm(st)[:120])
 
 
+def rule_fingerprint_recorded(ctx: Ctx, rid="C11.FINGERPRINT-RECORDED"):
+    """Every normally-ending path of recompile that switches the evaluator also records the
+    fingerprint of the text it switched to (otherwise a later recompile of that text is skipped
+    or not skipped against a stale fingerprint)."""
+    m, c = _evaluator(ctx)
+    rec = m.get_method(c, "recompile")
+    # the attribute compared by the skip test
+    attr = None
+    for n in ast.walk(rec):
+        if isinstance(n, ast.If) and isinstance(n.test, ast.Compare):
+            for side in [n.test.left] + n.test.comparators:
+                d = dotted(side)
+                if d and d.startswith("self."):
+                    attr = d.split(".", 1)[1]
+    if attr is None:
+        ctx.rep.ok(rid, f"{EV}:ExperimentEvaluator.recompile", "no fingerprint-based skip: nothing to record", nontrivial=False)
+        return
+    n = 0
+    for p in flow.enumerate_paths(rec):
+        if p.exit not in ("return", "fall"):
+            continue
+        writes = []
+        for st in p.stmts():
+            writes += [(k, a) for k, a, rhs in _is_state_write(st, "self", set(), set())]
+        attrs = {str(a) for _, a in writes}
+        switched = attrs - {attr}
+        if not switched:
+            continue
+        n += 1
+        ok = attr in attrs
+        conds = [("" if e[2] else "not ") + norm(e[1])[:40] for e in p.events if isinstance(e, tuple) and e[0] == "test"]
+        ctx.rep.check(ok, rid, f"{EV}:ExperimentEvaluator.recompile[path: {' and '.join(conds)[:90]}]",
+                      f"switches {sorted(switched)} and records self.{attr}" if ok else
+                      f"a path switches {sorted(switched)} without recording self.{attr}: the evaluator then runs one text while its "
+                      "fingerprint names another, so a later recompile is wrongly skipped (history A, B, A, B leaves A running)",
+                      site=m.site(rec), text=f"path {' and '.join(conds)[:120]} writes {sorted(attrs)}")
+    ctx.rep.floor("switching paths of recompile", n, 1)
+
+
 def rule_instance_only(ctx: Ctx, rid="C11.INSTANCE-ONLY"):
     m, c = _evaluator(ctx)
     cn = set(m.classes())
@@ -1149,15 +1216,13 @@ def rule_installed_function(ctx: Ctx, rid="C11.INSTALLED-FUNCTION", strict=True,
         elif direct:
             ctx.rep.ok(rid, f"{EV}:ExperimentEvaluator.recompile[{a} :=]", f"installs {norm(vals[0])[:50]}: the function object the "
                        "generated code defined", site=m.site(st))
-        elif strict and a == "run_experiment":
-            raise AnalysisError(f"installed function expression not understood: {norm(rhs)[:100]}")
         else:
             ctx.rep.ok(rid, f"{EV}:ExperimentEvaluator.recompile[{a} :=]", f"stores {norm(rhs)[:50]} (no cache wrapper)", site=m.site(st),
                        nontrivial=False)
     return installs
 
 
-def rule_call_forwards(ctx: Ctx, rid="C09.CALL-FORWARDS", publish=False):
+def rule_call_forwards(ctx: Ctx, rid="C09.CALL-FORWARDS", publish=False, no_try=False):
     m, c = _evaluator(ctx)
     call = m.get_method(c, "__call__")
     a = call.args
@@ -1197,6 +1262,13 @@ def rule_call_forwards(ctx: Ctx, rid="C09.CALL-FORWARDS", publish=False):
                       "== of the arguments) instead of the compiled function", site=m.site(p.exit_node),
                       text=f"return {norm(v)[:80] if v is not None else None} after {[norm(s)[:40] for s in others[:3]]}")
     ctx.rep.floor("return paths of __call__", n, 1)
+    if no_try:
+        tries = [t for t in ast.walk(call) if isinstance(t, ast.Try) and t.handlers]
+        ctx.rep.check(not tries, rid.split(".")[0] + ".ERRORS-PASS-THROUGH", f"{EV}:ExperimentEvaluator.__call__[exceptions]",
+                      "__call__ lets the compiled function's exceptions through unchanged" if not tries else
+                      f"__call__ catches exceptions of the compiled function ({norm(tries[0].handlers[0])[:60]}): the class of an error "
+                      "can differ from the one the generated stand-alone text raises", site=m.site(tries[0]) if tries else m.site(call),
+                      text=norm(tries[0].handlers[0])[:120] if tries else "")
     if not publish:
         return
     # single published attribute read on the call path
@@ -1468,6 +1540,10 @@ def rule_stats(ctx: Ctx):
         if isinstance(e, ast.Name):
             if e.id in env:
                 return env[e.id]
+            mm_, node = ctx.src.resolve_name(m, e.id)
+            val = getattr(node, "value", None)
+            if isinstance(val, (ast.Constant, ast.BinOp, ast.Call, ast.UnaryOp)):
+                return to_sym(val, dict(sym))
             raise AnalysisError(f"stats: unknown name {e.id}")
         if isinstance(e, ast.BinOp):
             l, r = to_sym(e.left, env), to_sym(e.right, env)
@@ -1564,7 +1640,13 @@ def rule_stats(ctx: Ctx):
         # which method does this path stand for?
         meth = None
         unknown_tests = []
+        extra_conditions = []
+        reassigned = None
         for e in pth.events:
+            if isinstance(e, ast.Assign) and any(isinstance(t_, ast.Name) and t_.id == "method" for t_ in e.targets):
+                if not is_method_expr(e.value):       # method = method.lower() keeps the name
+                    reassigned = norm(e.value)
+                continue
             if isinstance(e, tuple) and e[0] == "test":
                 t, truth = e[1], e[2]
                 lit = None
@@ -1591,13 +1673,24 @@ def rule_stats(ctx: Ctx):
                             elif isinstance(val, (ast.Tuple, ast.List, ast.Set)) and all(isinstance(x, ast.Constant) for x in val.elts):
                                 lit = [x.value for x in val.elts]
                 if lit is None:
-                    unknown_tests.append(norm(t))
+                    # a test that is not (only) about the method name: both outcomes are explored as opaque conditions;
+                    # a conjunct about the method still selects it
+                    sub = [x for x in ast.walk(t) if isinstance(x, ast.Compare) and len(x.ops) == 1 and is_method_expr(x.left)
+                           and isinstance(x.ops[0], ast.Eq) and isinstance(x.comparators[0], ast.Constant)]
+                    if sub and truth and isinstance(t, ast.BoolOp) and isinstance(t.op, ast.And):
+                        meth = str(sub[0].comparators[0].value).lower()
+                    extra_conditions.append(norm(t))
                     continue
                 if truth:
                     meth = next((k for k in refs if k in [str(x).lower() for x in lit]), lit[0])
         if unknown_tests:
             raise AnalysisError(f"confidence_interval: test not understood: {unknown_tests[0]}")
         con = f"utils/stats.py:confidence_interval[{meth or 'no known method'}]"
+        if reassigned is not None:
+            ctx.rep.bad("C18.FORMULA", con + "[method reassigned]", f"on a path ({'; '.join(extra_conditions)[:80]}) the requested method is "
+                        f"replaced by {reassigned}: the result is not the formula of the method that was asked for",
+                        site=m.site(ci), text=f"method := {reassigned} under {extra_conditions[:1]}")
+            continue
         if meth is None:
             ok = pth.exit == "raise"
             ctx.rep.check(ok, "C18.UNKNOWN-REFUSED", con, "a method name matching none of the known ones raises" if ok else
@@ -1663,6 +1756,92 @@ def rule_stats(ctx: Ctx):
         ctx.rep.check(exact, "C18.ORDERED-ENDPOINTS", con, "returns (c - h, c + h) with h = z * sqrt(...) >= 0, so lower <= upper"
                       if exact else "endpoints are not c -/+ the same non-negative half-width", site=m.site(pth.exit_node),
                       text=f"{meth} endpoints")
-    ctx.rep.floor("documented interval methods analysed", len(seen_methods), 2)
+    if not any(not o.ok for o in ctx.rep.obs):
+        ctx.rep.floor("documented interval methods analysed", len(seen_methods), 2)
     unk = [o for o in ctx.rep.obs if o.rule == "C18.UNKNOWN-REFUSED"]
     ctx.rep.floor("unknown-method paths", len(unk), 1)
+
+
+def rule_text_unmodified(ctx: Ctx, rid="C08.TEXT-UNMODIFIED"):
+    """The text handed to the lexer is the caller's text itself: parse_source passes its parameter
+    to tokenize() and recompile passes its parameter to parse_source, with no rewriting in between."""
+    wf = ctx.mod(WF)
+    ps = wf.get_function("parse_source")
+    par = ps.args.args[0].arg
+    env, multi = _single_assign_env(ps)
+    toks = [c for c in walk_no_nested(ps) if isinstance(c, ast.Call) and isinstance(c.func, ast.Attribute) and c.func.attr == "tokenize"]
+    if len(toks) != 1:
+        raise AnalysisError("parse_source no longer contains exactly one tokenize() call")
+    arg = toks[0].args[0] if toks[0].args else None
+    stores = [n for n in walk_no_nested(ps) if isinstance(n, ast.Name) and isinstance(n.ctx, ast.Store) and n.id == par]
+    a = _subst(arg, env) if arg is not None else None
+    ok = isinstance(a, ast.Name) and a.id == par and not stores
+    ctx.rep.check(ok, rid, f"{WF}:parse_source[tokenize argument]",
+                  "the lexer receives the caller's text unchanged" if ok else
+                  f"the lexer receives `{norm(a) if a is not None else '?'}`" + (f" ({par} is reassigned: {norm(stores[0])})" if stores else "") +
+                  ", not the caller's text: characters are rewritten before lexing (e.g. str.splitlines() also breaks at \\r, "
+                  "\\x0c, U+2028, which `//.*` does not treat as a line end)", site=wf.site(toks[0]), text=f"tokenize({norm(a) if a is not None else None})")
+    m, c = _evaluator(ctx)
+    rec = m.get_method(c, "recompile")
+    rp = rec.args.args[1].arg
+    renv, _ = _single_assign_env(rec)
+    calls = [x for x in walk_no_nested(rec) if isinstance(x, ast.Call) and dotted(x.func) == "parse_source"]
+    for x in calls:
+        a = _subst(x.args[0], renv) if x.args else None
+        rstores = [n for n in walk_no_nested(rec) if isinstance(n, ast.Name) and isinstance(n.ctx, ast.Store) and n.id == rp]
+        ok = isinstance(a, ast.Name) and a.id == rp and not rstores
+        ctx.rep.check(ok, rid, f"{EV}:ExperimentEvaluator.recompile[parse_source argument]",
+                      "recompile parses the caller's text unchanged" if ok else f"recompile parses `{norm(a) if a is not None else '?'}`, not the caller's text",
+                      site=m.site(x), text=f"parse_source({norm(a) if a is not None else None})")
+    ctx.rep.floor("parse_source call sites in recompile", len(calls), 1)
+
+
+def rule_tokens_truthy(ctx: Ctx, rid="C06.TOKENS-TRUTHY"):
+    """sly drops a token when `not tok` (lexer) and ends the input when `not lookahead` (parser):
+    token objects must therefore always be truthy - Token must not define __bool__/__len__."""
+    m = ctx.mod("sly/lex.py")
+    tok = m.get_class("Token")
+    bad = [n.name for n in tok.body if isinstance(n, ast.FunctionDef) and n.name in ("__bool__", "__len__")]
+    ctx.rep.check(not bad, rid, "sly/lex.py:Token", "Token defines neither __bool__ nor __len__: every token is truthy" if not bad else
+                  f"Token defines {bad}: a token can be falsy (e.g. an empty string literal), and `if not tok: continue` in "
+                  "Lexer.tokenize then silently drops it", site=m.site(tok), text=f"Token {bad}")
+    y = ctx.mod("sly/yacc.py")
+    sym = y.get_class("YaccSymbol")
+    bad = [n.name for n in sym.body if isinstance(n, ast.FunctionDef) and n.name in ("__bool__", "__len__")]
+    ctx.rep.check(not bad, rid, "sly/yacc.py:YaccSymbol", "YaccSymbol is always truthy" if not bad else f"YaccSymbol defines {bad}",
+                  site=y.site(sym), text=f"YaccSymbol {bad}")
+
+
+def rule_no_swallow(ctx: Ctx, rid="C06.NO-SWALLOW"):
+    """Nothing on the compile path swallows the lexer's / parser's error: no return/break/continue
+    inside a `finally` (it discards the exception in flight) and no handler for the error classes
+    that completes normally, in Lexer.tokenize, Parser.parse, parse_source and recompile."""
+    targets = [("sly/lex.py", "Lexer", "tokenize"), ("sly/yacc.py", "Parser", "parse"), (WF, None, "parse_source"),
+               (EV, "ExperimentEvaluator", "recompile"), (EV, "ExperimentEvaluator", "__init__")]
+    n = 0
+    for rel, cls, fname in targets:
+        m = ctx.mod(rel)
+        fn = m.get_method(cls, fname) if cls else m.get_function(fname)
+        n += 1
+        probs = []
+        for t in ast.walk(fn):
+            if isinstance(t, ast.Try):
+                for st in t.finalbody:
+                    for x in ast.walk(st):
+                        if isinstance(x, (ast.Return, ast.Break, ast.Continue)):
+                            probs.append((x, f"`{norm(x)[:30]}` inside a finally block discards an exception in flight (a LexError raised while "
+                                             "tokenising is swallowed and the token stream just ends)"))
+                for h in t.handlers:
+                    names = [dotted(e) for e in (h.type.elts if isinstance(h.type, ast.Tuple) else [h.type])] if h.type is not None else [None]
+                    catches_err = any(nm is None or nm.split(".")[-1] in ("Exception", "BaseException", "LexError", "YaccError", "ParseError", "SyntaxError")
+                                      for nm in names)
+                    reraises = any(isinstance(x, ast.Raise) for st in h.body for x in ast.walk(st))
+                    if catches_err and not reraises:
+                        probs.append((h, f"an except clause for {names} completes normally: the compile error is swallowed"))
+        con = f"{rel}:{(cls + '.') if cls else ''}{fname}"
+        if probs:
+            x, why = probs[0]
+            ctx.rep.bad(rid, con, why, site=m.site(x), text=f"{fname}: {why[:80]}")
+        else:
+            ctx.rep.ok(rid, con, "no construct swallows an error in flight", site=m.site(fn))
+    ctx.rep.floor("compile-path functions scanned for swallowed errors", n, 5)
